@@ -67,7 +67,7 @@ __wrap_clock_gettime(clockid_t id, struct timespec *ts) {
 enum { K_U = 0, K_D, K_P };
 #define MAXA 3
 static struct sockaddr_storage addr_of[3];	/* one address per kind */
-static int lsn[3] = { -1, -1, -1 }, filler = -1;
+static int lsn[3] = { -1, -1, -1 }, filler = -1, p_available = 1;
 static const char kind_ch[3] = { 'U', 'D', 'P' };
 
 /* ---- attempts seen on the wire (wrapped connect) ---- */
@@ -116,6 +116,22 @@ net_setup(void) {
 	filler = socket(AF_INET, SOCK_STREAM | SOCK_NONBLOCK, 0);
 	connect(filler, (struct sockaddr *)&addr_of[K_P], sizeof(struct sockaddr_in));
 	p.fd = filler; p.events = POLLOUT; poll(&p, 1, 10000);
+	/* self check of the environment: a further connection to P must stay in progress, one to D must be refused */
+	{
+		int c = socket(AF_INET, SOCK_STREAM | SOCK_NONBLOCK, 0), e = 0; socklen_t el = sizeof(e);
+		connect(c, (struct sockaddr *)&addr_of[K_P], sizeof(struct sockaddr_in));
+		p.fd = c; p.events = POLLOUT;
+		if (0 != poll(&p, 1, 300)) { p_available = 0; printf("NOTE\tthis kernel completes or refuses a connection to a listener with a full queue: never-answering addresses are left out\n"); }
+		__real_close(c);
+		c = socket(AF_INET, SOCK_STREAM | SOCK_NONBLOCK, 0);
+		connect(c, (struct sockaddr *)&addr_of[K_D], sizeof(struct sockaddr_in));
+		p.fd = c; p.events = POLLOUT;
+		if (1 != poll(&p, 1, 10000) || 0 != getsockopt(c, SOL_SOCKET, SO_ERROR, &e, &el) || ECONNREFUSED != e) {
+			printf("NOTE\tloop-back connection to a bound, not listening socket was not refused (SO_ERROR %d): the accept/connect harness cannot run here\n", e);
+			vh_fail("harness", "loop-back TCP does not behave as assumed");
+		}
+		__real_close(c);
+	}
 	harness_connect = 0;
 }
 
@@ -530,6 +546,7 @@ gen_connect_ex(void) {
 		for (code = 0; code < ncodes; code ++) {
 			int c = code, has_p = 0;
 			for (i = 0; i < C.na; i ++) { C.kinds[i] = c % 3; c /= 3; if (K_P == C.kinds[i]) has_p = 1; }
+			if (has_p && !p_available) continue;
 			for (C.timeout = 0; C.timeout < 2; C.timeout ++)
 			for (C.max_tries = 0; C.max_tries <= 2; C.max_tries ++)
 			for (C.rr = 0; C.rr < 2; C.rr ++)
@@ -570,6 +587,7 @@ main(int argc, char **argv) {
 	}
 	C.mode = M_CONNECT; C.policy = 0;
 	for (C.kind = 0; C.kind < 3; C.kind ++) for (C.timeout = 0; C.timeout < 2; C.timeout ++) for (C.nosettle = 0; C.nosettle < 2; C.nosettle ++) {
+		if (K_P == C.kind && !p_available) continue;
 		C.nh = 0; gen_hist(con_ops, con_ks, 2, 0, 4);
 	}
 	C.nosettle = 0; C.kind = 0;
